@@ -22,6 +22,7 @@ mod e2e;
 mod extras;
 mod extract;
 mod model;
+mod repo_tests;
 mod report;
 mod rng;
 mod tool;
